@@ -11,7 +11,8 @@ from .core import Infeasible, Violation
 class ConcreteCtx:
     concrete = True
 
-    def __init__(self, model):
+    def __init__(self, model, purpose="replay"):
+        self.purpose = purpose  # "twin": mirror a symbolic path; "replay": confirm a counterexample
         self.model = dict(model)
         self.notes = {}
         self.assumptions = []
@@ -29,10 +30,16 @@ class ConcreteCtx:
         return float(v)
 
     def int(self, name, lo=None, hi=None):
-        v = int(self._get(name))
+        v = self._get(name)
+        if int(v) != v:
+            raise Infeasible()
+        v = int(v)
         if (lo is not None and v < lo) or (hi is not None and v > hi):
             raise Infeasible()
         return v
+
+    def count(self, name, lo, hi):
+        return self.int(name, lo, hi)
 
     def bool(self, name):
         return bool(self._get(name))
